@@ -901,7 +901,8 @@ func storeSpecs(cl Clauses, thorough bool, subs []string, d, nd int) []Spec {
 		out = append(out, Spec{Name: "allocator.DistributedAllocator", Config: fmt.Sprintf("%s %s faults<=%d", c.Net, mode, faults), Depth: d, NoDedup: 2,
 			New: func() explore.System { return NewDist(cl, c) }})
 	}
-	for _, c := range []PoolAllocCfg{{"10.0.0.5/30", 32, subs, faults}, {"2001:db8:0:8::/61", 64, subs, faults}, {"10.1.2.77/24", 27, subs, faults}} {
+	for _, c := range []PoolAllocCfg{{"10.0.0.5/30", 32, subs, faults}, {"2001:db8:0:8::/61", 64, subs, faults}, {"10.1.2.77/24", 27, subs, faults},
+		{"2001:db8:0:4::/62", 65, subs[:2], 0}, {"2001:db8:0:1:800::/69", 72, subs[:2], 0}, {"2001:db8::8/125", 128, subs[:2], 0}, {"10.0.2.0/23", 25, subs[:2], 0}} {
 		c := c
 		out = append(out, Spec{Name: "allocator.PoolAllocator", Config: fmt.Sprintf("%s->/%d faults<=%d", c.Net, c.UnitLen, faults), Depth: d + 1, NoDedup: nd,
 			New: func() explore.System { return NewPoolAlloc(cl, c) }})
